@@ -155,21 +155,21 @@ Deserialize(bs) ==
 (* ----------------------------------------------------------- the module space *)
 \* (dummy arguments: TLC would otherwise evaluate these zero-arity constant definitions eagerly in every configuration)
 MaxU32 == <<255, 255, 255, 255>>
-StrAtoms(u_) == IF Deep THEN {<<>>, <<97>>, <<0>>, <<97, 98>>, <<255, 10>>} ELSE {<<>>, <<97>>, <<0>>}
+StrAtoms(u_) == IF Deep THEN {<<>>, <<97>>, <<0>>, <<97, 98>>} ELSE {<<>>, <<97>>, <<0>>}
 CallSeqs(u_) == UNION {[1 .. n -> StrAtoms(0)] : n \in 0 .. 3}                     \* add_string calls, repeats included
 Codes(u_) == {<<>>, <<1, 2, 3, 4>>} \cup (IF Deep THEN {<<0>>} ELSE {})
 F0 == [name |-> U32(0), arity |-> U16(0), off |-> U32(0), len |-> U32(0), locals |-> U16(0), upvalues |-> U16(0)]
 F1 == [name |-> U32(1), arity |-> U16(65535), off |-> MaxU32, len |-> U32(1), locals |-> U16(1), upvalues |-> <<0, 128>>]
 F2 == [name |-> MaxU32, arity |-> U16(258), off |-> U32(16909060), len |-> MaxU32, locals |-> U16(65535), upvalues |-> U16(513)]
-FnTables(u_) == {<<>>, <<F0>>, <<F1>>, <<F0, F1>>} \cup (IF Deep THEN {<<F2>>, <<F2, F0>>, <<F1, F1>>} ELSE {})
+FnTables(u_) == {<<>>, <<F0>>, <<F1>>, <<F0, F1>>} \cup (IF Deep THEN {<<F2>>} ELSE {})
 I0 == [mod |-> U32(0), fn |-> U32(0), ret |-> <<0>>, params |-> <<>>]
 I1 == [mod |-> U32(1), fn |-> MaxU32, ret |-> <<255>>, params |-> <<1>>]
 I2 == [mod |-> U32(16909060), fn |-> U32(2), ret |-> <<5>>, params |-> <<5, 0>>]
-ImpTables(u_) == {<<>>, <<I0>>, <<I1>>, <<I2>>, <<I1, I2>>, <<I0, I0>>} \cup (IF Deep THEN {<<I2, I0>>, <<I2, I1>>} ELSE {})
+ImpTables(u_) == {<<>>, <<I0>>, <<I1>>, <<I2>>, <<I1, I2>>, <<I0, I0>>} \cup (IF Deep THEN {<<I2, I1>>} ELSE {})
 D0 == [off |-> U32(0), line |-> U32(0)]
 D1 == [off |-> MaxU32, line |-> U32(16909060)]
-DbgTables(u_) == {<<>>, <<D0>>, <<D0, D1>>} \cup (IF Deep THEN {<<D1>>, <<D1, D1>>} ELSE {})
-Heads(u_) == {<<U32(0), U32(0)>>, <<U32(1), U32(1)>>, <<MaxU32, MaxU32>>} \cup (IF Deep THEN {<<U32(7), U32(0)>>, <<U32(0), U32(16909060)>>} ELSE {})         \* <<flags, entry>>
+DbgTables(u_) == {<<>>, <<D0>>, <<D0, D1>>} \cup (IF Deep THEN {<<D1>>} ELSE {})
+Heads(u_) == {<<U32(0), U32(0)>>, <<U32(1), U32(1)>>, <<MaxU32, MaxU32>>} \cup (IF Deep THEN {<<U32(7), U32(16909060)>>} ELSE {})         \* <<flags, entry>>
 
 Modules(u_) == {[calls |-> cs,
                  m |-> [strings |-> BuildPool(cs, <<>>, <<>>).pool, code |-> cd, functions |-> ft, imports |-> it, debug |-> dt,
